@@ -3,7 +3,10 @@ package harness
 // Generators shared between properties.  All randomness comes from rapid draws.
 
 import (
+	"fmt"
+	"github.com/gcash/bchd/wire"
 	"math/big"
+	"sync"
 
 	"github.com/gcash/bchd/bchec"
 	"github.com/gcash/bchd/chaincfg"
@@ -72,6 +75,45 @@ var nets = []netInfo{
 	{"chipnet", &chaincfg.ChipNetParams},
 	{"regtest", &chaincfg.RegressionNetParams},
 	{"simnet", &chaincfg.SimNetParams},
+}
+
+// setupProp registers further networks with chaincfg, after the library's packages have been initialised,
+// and adds them to the table: "every registered network" includes those a program registers itself.  It
+// runs at the start of a check and of a replay alike (a check process runs one property only).
+//   - C04, C05, C06, C15 (which quantify over registered networks): one network whose identifiers collide
+//     with nothing;
+//   - C02: that one (as "custc") and two whose legacy version bytes collide crosswise: 0xa1 is P2PKH on
+//     one and P2SH on the other, 0xa2 the other way round - a legacy string with such a byte cannot be
+//     attributed to one kind and must not be accepted as either.
+var setupOnce sync.Once
+
+func setupProp(prop string) (err error) {
+	setupOnce.Do(func() {
+		mk := func(name string, magic uint32, cash, slp string, pkh, sh, wif, hd byte) *chaincfg.Params {
+			n := chaincfg.MainNetParams
+			n.Name, n.Net, n.CashAddressPrefix, n.SlpAddressPrefix = name, wire.BitcoinNet(magic), cash, slp
+			n.LegacyPubKeyHashAddrID, n.LegacyScriptHashAddrID, n.PrivateKeyID = pkh, sh, wif
+			n.HDPrivateKeyID, n.HDPublicKeyID = [4]byte{hd, 1, 1, 1}, [4]byte{hd, 1, 1, 2}
+			return &n
+		}
+		var add []*chaincfg.Params
+		switch prop {
+		case "C02":
+			add = []*chaincfg.Params{mk("custa", 0xa1a1a1a1, "bchcusta", "slpcusta", 0xa1, 0xa2, 0xa3, 0x0a),
+				mk("custb", 0xb2b2b2b2, "bchcustb", "slpcustb", 0xa2, 0xa1, 0xa4, 0x0b),
+				mk("custc", 0xc3c3c3c3, "bchcustc", "slpcustc", 0xb1, 0xb2, 0xb3, 0x0c)}
+		case "C04", "C05", "C06", "C15":
+			add = []*chaincfg.Params{mk("latenet", 0xd4d4d4d4, "bchlate", "slplate", 0xd1, 0xd2, 0xd3, 0x0d)}
+		}
+		for _, n := range add {
+			if e := chaincfg.Register(n); e != nil {
+				err = fmt.Errorf("cannot register network %s: %v", n.Name, e)
+				return
+			}
+			nets = append(nets, netInfo{n.Name, n})
+		}
+	})
+	return err
 }
 
 func genNet(t *rapid.T) int { return rapid.IntRange(0, len(nets)-1).Draw(t, "net") }
